@@ -184,13 +184,27 @@ func AnnoValue(a Anno) proj.Attr {
 	return proj.Attr{Kind: "s", S: strings.TrimLeft(strings.Join(ls, "\n"), " ") + "\n"}
 }
 
+// addAnnos: `@name = value` lines. The FIRST non-empty value declared for a name on an element is the one the
+// element holds - whether it was given inline in the header or by an earlier annotation, and for strings and
+// arrays alike; an empty string / empty array is no value and is overwritten by the next one. Tags (`patterns`)
+// accumulate.
+func attrNonEmpty(a proj.Attr) bool {
+	return (a.Kind == "s" && a.S != "") || (a.Kind == "a" && len(a.Elts) > 0)
+}
+
 func addAnnos(dst proj.Attrs, as []Anno) proj.Attrs {
 	for _, a := range as {
 		if dst == nil {
 			dst = proj.Attrs{}
 		}
-		if _, ok := dst[a.Name]; !ok {
-			dst[a.Name] = AnnoValue(a)
+		v := AnnoValue(a)
+		old, ok := dst[a.Name]
+		switch {
+		case ok && a.Name == "patterns" && old.Kind == "a" && v.Kind == "a":
+			dst[a.Name] = proj.Attr{Kind: "a", Elts: append(append([]proj.Attr{}, old.Elts...), v.Elts...)}
+		case ok && attrNonEmpty(old):
+		default:
+			dst[a.Name] = v
 		}
 	}
 	return dst
@@ -284,6 +298,27 @@ func fieldIntent(app, path []string, f Field) *proj.Type {
 	return t
 }
 
+// inTupleIntent: `name <:` + indented fields declares (1) in the enclosing type the field `name`, a reference to
+// [name] (a list of it for the array form) and (2) a tuple type of its own, named by the dotted path
+// Type.name[.inner...], that holds the nested fields; references inside it are written in the context of that path.
+func inTupleIntent(a *proj.App, app, path []string, t *InTuple) *proj.Type {
+	sub := append(append([]string(nil), path...), t.Name)
+	nt := &proj.Type{Kind: "tuple", Fields: map[string]*proj.Type{}}
+	for _, n := range t.Fields {
+		if n.Field != nil {
+			nt.Fields[n.Field.Name] = fieldIntent(app, sub, *n.Field)
+		} else {
+			nt.Fields[n.Tuple.Name] = inTupleIntent(a, app, sub, n.Tuple)
+		}
+	}
+	a.Types[strings.Join(sub, ".")] = nt
+	f := &proj.Type{Kind: "ref", Ref: &proj.Scope{Path: []string{t.Name}}}
+	if t.Array {
+		f = &proj.Type{Kind: "list", Inner: f}
+	}
+	return f
+}
+
 func paramsIntent(app []string, ps []Field) []proj.Param {
 	var out []proj.Param
 	for _, p := range ps {
@@ -370,6 +405,10 @@ func intentMember(m *proj.Module, a *proj.App, key string, mem Member) {
 		for _, it := range mem.Items {
 			if it.Anno != nil {
 				t.Attrs = addAnnos(t.Attrs, []Anno{*it.Anno})
+				continue
+			}
+			if it.Tuple != nil {
+				t.Fields[it.Tuple.Name] = inTupleIntent(a, a.Parts, []string{mem.Name}, it.Tuple)
 				continue
 			}
 			t.Fields[it.Field.Name] = fieldIntent(a.Parts, []string{mem.Name}, *it.Field)
